@@ -402,7 +402,8 @@ def _chunk(case, rec, rng):
     """Evaluator chunking: per-sample results independent of the number of samples in the call."""
     from vlib import gen
     mode = ["SEP", "NPOL", "POL"][case["idx"] % 3]
-    ev = str(rng.choice(["kernel", "rbf", "linear", "rbf+kernel", "subrbf", "subrbf+linear"]))
+    ev = str(rng.choice(["rbf+kernel", "subrbf+linear", "kernel+rbf", "linear+rbf"] if case["idx"] % 2
+                        else ["kernel", "rbf", "linear", "subrbf"]))
     fam = str(rng.choice(["sl-npa", "vj-mgga", "sdmx"]))
     cfg = dict(family=fam, mode=mode, evaluator=ev, model="xc1", nkernels=int(rng.integers(1, 3)))
     model = gen.build_model(cfg, rng)
@@ -429,6 +430,19 @@ def _chunk(case, rec, rng):
     r3, d3 = model(X0.copy(), rhocut=1e-3)
     rec.check("repeat_model", max(float(np.max(np.abs(r3 - res))), float(np.max(np.abs(d3 - dres)))), 1e-13,
               mechanism="MappedXC[%s]:repeat" % mode)
+    # evaluators add into buffers that earlier evaluators of the list have already written: the result must not depend on
+    # the position of an evaluator in the list (i.e. on what its output buffers held when it was called)
+    multi = [k for k in model.kernels if len(k.fevals) >= 2]
+    if multi:
+        for k in multi:
+            k.fevals = list(k.fevals)[::-1]
+        r4, d4 = model(X0.copy(), rhocut=1e-3)
+        for k in multi:
+            k.fevals = list(k.fevals)[::-1]
+        rec.check("evaluator_list_order", max(float(np.max(np.abs(r4 - res))) / max(float(np.max(np.abs(res))), 1e-9),
+                                              float(np.max(np.abs(d4 - dres))) / max(float(np.max(np.abs(dres))), 1e-9)), 1e-12,
+                  mechanism="MappedDFTKernel[%s]:depends-on-evaluator-order" % mode, detail={"evaluators": ev})
+        rec.tag("evaluator_list", "reversed")
     rec.nontrivial("%s|%s|%d|%d" % (mode, ev, nspin, N))
     rec.set_sample({"cfg": cfg, "nspin": nspin, "N": N, "worst": worst})
 
